@@ -137,6 +137,20 @@ theorem favor_and_spawner_independent_h9 (P : BV.Hasher.H9P) (F : JobIn (Option 
   favor_and_spawner_independent (h9Model P) 3 n ((h9Model_additive P).from n) ((h9Model_local P).from n)
     F input t n lgwin quality cap hq hl (Nat.le_refl _) ht ht16 sp1 sp2 f1 f2 hc
 
+/-- instance: quality 10/11 (`H10`, opaque `Store`), under the one remaining statement about `Store`
+(it reads `data[.. ix + 128)` only, C06Hasher `favor_cpu_equiv_h10`) -/
+theorem favor_and_spawner_independent_h10 {σ : Type} (store : ByteArray → Nat → σ → Option σ) (empty : σ)
+    (hloc : ∀ d d' ix st k, Agree d d' k → ix + 128 ≤ k → store d ix st = store d' ix st)
+    (F : JobIn (Option σ) → JobRes)
+    (input : List Nat) (t n lgwin quality cap : Nat) (hq : 2 ≤ quality) (hl : 10 ≤ lgwin)
+    (ht : 1 ≤ t) (ht16 : t ≤ BV.Gen.MAX_THREADS) (sp1 sp2 : Spawner) (f1 f2 : Bool)
+    (hc : Clean (fun i => F (jobIn (h10Model store empty) input t n lgwin quality 127 f1 i)) t) :
+    compressMulti sp1 t (fun i => F (jobIn (h10Model store empty) input t n lgwin quality 127 f1 i)) cap
+      = compressMulti sp2 t (fun i => F (jobIn (h10Model store empty) input t n lgwin quality 127 f2 i)) cap :=
+  favor_and_spawner_independent (h10Model store empty) 127 n ((h10Model_additive store empty).from n)
+    ((h10Model_local store empty 128 (by decide) hloc).from n)
+    F input t n lgwin quality cap hq hl (Nat.le_refl _) ht ht16 sp1 sp2 f1 f2 hc
+
 /-- non-vacuity: an `F` that looks at what it is handed (the job's value is the piece if the held
 index did not panic) meets the hypotheses; 3 jobs, favor on, thread-per-job against favor off, inline -/
 def toyF (x : JobIn (Option BV.Hasher.Tab)) : JobRes := if x.held.isSome then JobRes.ok x.piece else JobRes.err
